@@ -120,6 +120,24 @@ start :: fn do
     pr(name)
 end
 ''',
+"plain_recursive_functions": '''
+fib :: fn a: int -> int do
+    if a < 2 do
+        ret a
+    end
+    ret fib(a - 1) + fib(a - 2)
+end
+start :: fn do
+    count_down :: fn n: int -> int do
+        if n == 0 do
+            ret 0
+        end
+        ret count_down(n - 1)
+    end
+    pr(fib(5))
+    pr(count_down(3))
+end
+''',
 "recursive_function_returning_a_function": '''
 idf :: fn x: int -> int do
     ret x
